@@ -77,6 +77,10 @@ fn strategy(_: &Ctx) -> BoxedStrategy<Case> {
 /// every offset the walk visits (0..=remaining+9); the final 8 bytes are a
 /// valid end tag so that the region loads.
 fn enumerate(ctx: &Ctx) -> Box<dyn Iterator<Item = Case>> {
+    Box::new(enumerate_regions(ctx).map(|region| Case { region }))
+}
+
+pub fn enumerate_regions(ctx: &Ctx) -> Box<dyn Iterator<Item = Hex>> {
     let kmax = if ctx.tier == Tier::Thorough { 6 } else { 5 };
     let mut out = Vec::new();
     for k in 1..=kmax {
@@ -90,10 +94,10 @@ fn enumerate(ctx: &Ctx) -> Box<dyn Iterator<Item = Case>> {
     Box::new(out.into_iter())
 }
 
-fn dfs(region: &mut Vec<u8>, off: usize, ts: usize, out: &mut Vec<Case>) {
+fn dfs(region: &mut Vec<u8>, off: usize, ts: usize, out: &mut Vec<Hex>) {
     if off >= ts - 8 {
         // reached (or jumped over) the end tag: the walk is determined
-        out.push(Case { region: Hex(region.clone()) });
+        out.push(Hex(region.clone()));
         return;
     }
     let remaining = ts - off;
@@ -103,7 +107,7 @@ fn dfs(region: &mut Vec<u8>, off: usize, ts: usize, out: &mut Vec<Case>) {
         put32(region, off, typ);
         put32(region, off + 4, size as u32);
         if size < 8 || size > remaining {
-            out.push(Case { region: Hex(region.clone()) });
+            out.push(Hex(region.clone()));
         } else {
             dfs(region, off + r8(size), ts, out);
         }
